@@ -357,3 +357,14 @@ def _run1(fn, start, env, stop_pred, P, call_value, max_steps, exit_blocks, fork
 def tv_lex(a, b):
     """order of two (sec, usec) pairs: -1, 0, 1"""
     return (a > b) - (a < b)
+
+
+def force_conds(fn, pred, value):
+    """environment entries that fix the value of every terminator condition selected by pred(block) — used to put the
+    evaluation into one 'world' (e.g. locking enabled: the `if (lock)` wrappers of the lock macros are all true)"""
+    env = {}
+    for b in fn.blocks.values():
+        t = b.term
+        if t and t.get("cond") is not None and pred(b):
+            env[key(strip(normx(t["cond"])))] = value
+    return env
